@@ -21,5 +21,10 @@ for sid in sys.argv[1:]:
                          for c, v in r["checks"].items()] + ["git -C /repo checkout -- ."],
         "caught_by": r["caught_by"],
     }
+    if os.path.exists(f"{d}/meta.json"):          # hand-written remarks survive a re-measurement
+        prev = json.load(open(f"{d}/meta.json"))
+        for k in ("status", "superseded_by", "note"):
+            if k in prev:
+                meta[k] = prev[k]
     json.dump(meta, open(f"{d}/meta.json", "w"), indent=1)
     print(sid, "caught_by", r["caught_by"])
